@@ -7,3 +7,5 @@ def run(ctx):
                          "(columns, row offsets, common band, rejected rates, sums/means, spectrum/time-series axes, orientation, "
                          "resolutions, start time, source name, copy-not-view)")
     c03.run_for(ctx, "C17")
+    from .frame_t import frame_trace_leg
+    frame_trace_leg(ctx, "C17")
